@@ -629,6 +629,17 @@ def request_alphabet():
     A.append(('tck-no-invocable', 'QTck (Some 11) false (Some true)', 'POST', '/tck/evaluate', jd({'model': 'm11', 'input': []}), 'application/json', 'fault'))
     A.append(('tck-no-input', 'QTck (Some 11) true None', 'POST', '/tck/evaluate', jd({'model': 'm11', 'invocable': 'dec'}), 'application/json', 'fault'))
     A.append(('tck-bad-input', 'QTck (Some 11) true (Some false)', 'POST', '/tck/evaluate', jd({'model': 'm11', 'invocable': 'dec', 'input': [{'name': 'x', 'value': {}}]}), 'application/json', 'fault'))
+    # an invalid typed value NESTED in a list / in a component of a list item: the request fails as a whole (seeded change C18_g: the invalid
+    # item was dropped and data computed from the shorter list)
+    ok_item = {'simple': {'type': 'xsd:decimal', 'text': '1', 'isNil': False}}
+    for tag, bad in (('text', {'simple': {'type': 'xsd:decimal', 'text': 'oops', 'isNil': False}}), ('type', {'simple': {'type': 'xsd:nothing', 'text': '1', 'isNil': False}}),
+                     ('bool', {'simple': {'type': 'xsd:boolean', 'text': 'maybe', 'isNil': False}}), ('date', {'simple': {'type': 'xsd:date', 'text': '2021-13-45', 'isNil': False}}),
+                     ('empty', {})):
+        A.append(('tck-bad-item-in-list-' + tag, 'QTck (Some 11) true (Some false)', 'POST', '/tck/evaluate',
+                  jd({'model': 'm11', 'invocable': 'dec', 'input': [{'name': 'x', 'value': {'list': {'items': [ok_item, bad, ok_item], 'isNil': False}}}]}), 'application/json', 'fault'))
+        A.append(('tck-bad-item-in-nested-list-' + tag, 'QTck (Some 11) true (Some false)', 'POST', '/tck/evaluate',
+                  jd({'model': 'm11', 'invocable': 'dec', 'input': [{'name': 'x', 'value': {'components': [{'name': 'c', 'value': {'list': {'items': [{'list': {'items': [bad], 'isNil': False}}], 'isNil': False}},
+                                                                                                       'isNil': False}], 'isNil': False}}]}), 'application/json', 'fault'))
     A.append(('tck-input-no-value', 'QTck (Some 11) true (Some false)', 'POST', '/tck/evaluate', jd({'model': 'm11', 'invocable': 'dec', 'input': [{'name': 'x'}]}), 'application/json', 'fault'))
     A.append(('tck-bad-type', 'QTck (Some 11) true (Some false)', 'POST', '/tck/evaluate',
               jd({'model': 'm11', 'invocable': 'dec', 'input': [{'name': 'x', 'value': {'simple': {'type': 'xsd:nothing', 'text': '1', 'isNil': False}}}]}), 'application/json', 'fault'))
